@@ -325,7 +325,7 @@ func main() {
 	}
 	batch, err := emitted.Emit(eprogs)
 	if batch != nil {
-		defer batch.Close()
+		r.OnFinish(batch.Close)
 	}
 	if err != nil {
 		ev.Fatal("emit: %v", err)
